@@ -1,3 +1,5 @@
 import Cgm.Lemmas.AuditCmd
 import Cgm.Props.C09
+import Cgm.Props.C09b
+import Cgm.Props.C09c
 #audit_namespace Cg.C09
